@@ -535,9 +535,41 @@ class PairEngine:
                 if (t.resolved or t.callee) != callee:
                     continue
                 cf = flow.call_flow(body, bb)
-                edges |= (cf.err_edges if which == 'err' else cf.ok_edges)
+                for e_ in (cf.err_edges if which == 'err' else cf.ok_edges):
+                    if self._edge_decided_only_by(body, e_, bb):
+                        edges.add(e_)
         self.cut[q] = edges
         return edges
+
+    @staticmethod
+    def _edge_decided_only_by(body, edge, call_bb):
+        """The switch at the source of `edge` tests a value whose *only* definition is the result of the call in
+        block `call_bb` (through single-definition moves).  An Option that also has another definition (a `None`
+        initialiser assigned on a different path) can take the cut edge for that other reason: not infeasible."""
+        t = body.blocks[edge[0]].term
+        if t.k != 'switch' or t.discr.place is None or not t.discr.place.is_local():
+            return True
+        d = body.single_def(t.discr.place.local)
+        if d is None or d[1] == 'term' or d[2].rv.k != 'discr' or d[2].rv.place is None:
+            return True
+        l = d[2].rv.place.local
+        seen = set()
+        while True:
+            if l in seen:
+                return True
+            seen.add(l)
+            defs = body.defs.get(l, [])
+            if len(defs) > 1:
+                return False          # e.g. `let mut snapshot = None; ... snapshot = flag.then(..)`
+            if len(defs) != 1:
+                return True
+            (dbb, idx, node) = defs[0]
+            if idx == 'term':
+                return True           # the call itself or a combinator over its result
+            if node.rv.k == 'use' and node.rv.ops and node.rv.ops[0].place is not None and node.rv.ops[0].place.is_local():
+                l = node.rv.ops[0].place.local
+                continue
+            return True
 
     def param_snapshot_ok(self, body, local, r):
         """Hook: may pointer parameter `local` stand for a snapshot of resource r?"""
